@@ -403,6 +403,30 @@ pub fn run(ctx: &Ctx, rep: &mut Report) {
             if text.len() > 10_000 {
                 rep.count("expanding_inputs_near_the_limit_accepted", 1);
             }
+            // the older split API (returns a new list; a word that is not split comes back as it is)
+            if text.len() < 10_000 {
+                for (i, o) in obs.iter().enumerate().take(12) {
+                    for sm in [Mode::A, Mode::B] {
+                        #[allow(deprecated)]
+                        let r = guard(|| t.list.get(i).split(sm).map(|l| observe(&l)));
+                        match r {
+                            Ok(Ok(parts)) => {
+                                let ok = !parts.is_empty() && parts[0].begin == o.begin && parts[parts.len() - 1].end == o.end
+                                    && parts.iter().all(|x| x.end <= text.len() && x.begin <= x.end && text.is_char_boundary(x.begin) && text.is_char_boundary(x.end)
+                                        && x.begin_c == text[..x.begin].chars().count() && x.end_c == text[..x.end].chars().count() && text[x.begin..x.end] == x.surface);
+                                rep.count("deprecated_split_results_checked", 1);
+                                if !ok {
+                                    rep.violation("code_point_offsets", "Morpheme::split", &format!("split({}) of morpheme {} ({:?}, {}..{}) returns {:?}", crate::scen::mode_name(sm), i, o.surface, o.begin, o.end, parts.iter().map(|x| (x.begin, x.end, x.begin_c, x.end_c, x.surface.clone())).collect::<Vec<_>>()), "",
+                                        json!({"world_index": wi, "text": text, "mode": crate::scen::mode_name(mode), "world": world.describe(true)}));
+                                }
+                            }
+                            Ok(Err(_)) => {}
+                            Err(p) => rep.violation("code_point_offsets", &p.site, &format!("Morpheme::split({}) of morpheme {} or reading its result panics: {}", crate::scen::mode_name(sm), i, p.msg), "",
+                                json!({"world_index": wi, "text": text, "mode": crate::scen::mode_name(mode), "world": world.describe(true)})),
+                        }
+                    }
+                }
+            }
             // morphemes obtained by splitting on demand, into lists of different provenance
             if text.len() < 10_000 {
                 for (i, o) in obs.iter().enumerate() {
